@@ -66,6 +66,11 @@ CHECKS = {
    "For each corpus grammar and each option set the generated file must be byte-identical under every explored iteration order of every map range, after any history of earlier generation calls, and across repeated native runs. Deviation bound 1 is complete for visits of up to 6 keys (all permutations); larger visits use reversal, rotations and adjacent transpositions (reported as a cap).",
    "Trusted: the overlay rewriter (repo tests pass under it; every produced order is one Go allows). Assumes map iteration is yaccgo's only nondeterminism.",
    "3/C14"),
+ "C13": ("exploration",
+   "exhaustive enumeration of a text space (all fragment sequences up to a length bound over a 38-piece lexical alphabet, every byte prefix and every single-token edit of corpus grammar files) through the real front end on an overlay build where every loop iteration burns fuel; hangs = fuel exhaustion / spinning background goroutine / runtime deadlock, each confirmed on the native CLI",
+   "generate go, generate typescript and debug must return or stop with a diagnostic on every text of the explored space; termination is decided deterministically by fuel (10M loop iterations, >= 50x the largest terminating run), not by wall clock.",
+   "Trusted: the overlay rewriter instruments every for/range loop and function entry of the repository packages; the fuel margin. Not all byte strings: the fragment alphabet, prefixes and single edits.",
+   "3/C13"),
 }
 
 PENDING = {}
